@@ -86,6 +86,9 @@ func TestVerifC19_sumvec_agg(t *testing.T) {
 		RTMaxBatch:  2,
 		Seeds:       r.Pick(2, 5),
 		DomainLimit: 8,
+		SweepInsts:    []prio.Inst{c19SV(3, 1, 2)},
+		HistoryInsts:  []prio.Inst{c19SV(3, 1, 2), c19SV(2, 2, 3)},
+		HistoryShares: []int{2, 3},
 	}
 	if r.Thorough() {
 		plan.FullShares = []int{2, 3, 4, 9}
